@@ -229,9 +229,12 @@ Theorem C10mk_varassign_ml_single : forall text : str,
 Proof. exact ml_single. Qed.
 Print Assumptions C10mk_varassign_ml_single.
 
-(* the guard as coded: an accepted multi-line assignment has "=" in its first raw line *)
+(* the guard (/repo 96b19dc): an accepted multi-line assignment has its operator in the first raw
+   line - the raw text of the logical line up to and including the operator is no longer than the
+   first physical line without its continuation backslash and trailing blanks *)
 Theorem C10mk_varassign_ml_guard : forall (raw0 text : str) (a : varassign),
-  parse_varassign_ml true raw0 text = Ok (Some a) -> first_raw_has_equals raw0 = true.
+  parse_varassign_ml true raw0 text = Ok (Some a) ->
+  exists up_to_op r, text = up_to_op ++ r /\ (length up_to_op <= length (first_line_of raw0))%nat.
 Proof. exact varassign_ml_guard. Qed.
 Print Assumptions C10mk_varassign_ml_guard.
 
@@ -265,30 +268,40 @@ Theorem C10mk_varassign_file_lines :
   Forall (fun lr : Lines.line * res (option varassign) =>
     forall a, snd lr = Ok (Some a) ->
       va_law (Lines.text (fst lr)) a /\
-      (line_multiline (fst lr) = true -> first_raw_has_equals (line_raw0 (fst lr)) = true)) ls.
+      (line_multiline (fst lr) = true ->
+       exists up_to_op r, Lines.text (fst lr) = up_to_op ++ r /\
+         (length up_to_op <= length (first_line_of (line_raw0 (fst lr))))%nat)) ls.
 Proof. exact varassign_of_file_lines. Qed.
 Print Assumptions C10mk_varassign_file_lines.
 
-(* FULL statement: a logical line whose text alone parses without panic does not make
-   matchVarassign panic either.  FALSE of the faithful model (and of the real code): the guard
-   looks for ANY "=" in the first raw line, not for the operator. *)
+(* No panic on logical lines of several raw lines (since /repo 96b19dc).
+   The shape of a line: one raw line = the text; several: F = the first physical line without its
+   continuation backslash and trailing blanks starts both the raw line and the logical text. *)
+Theorem C10mk_varassign_ml_no_panic_line : forall (multiline : bool) (raw0 text : str) (r : option varassign),
+  (if multiline then exists x y, text = first_line_of raw0 ++ x /\ raw0 = first_line_of raw0 ++ y
+   else raw0 = text) ->
+  parse_varassign text = Ok r -> parse_varassign_ml multiline raw0 text <> Panic.
+Proof. exact varassign_ml_no_panic. Qed.
+Print Assumptions C10mk_varassign_ml_no_panic_line.
+
+(* FULL statement over files: for every line convertToLogicalLines builds, matchVarassign does not
+   panic unless parsing the logical text alone does.  Not refuted any more (the former witness is an
+   Example below); proved below with the shape of the line as a hypothesis - that
+   convertToLogicalLines gives every line this shape is corresponded on every run
+   (C10/correspondence/varassign-ml-line-shape), not yet derived from C09's theorems. *)
 Definition C10mk_varassign_ml_no_panic_full : Prop := ml_no_panic_full.
 
-Theorem C10mk_varassign_ml_no_panic_refuted : ~ C10mk_varassign_ml_no_panic_full.
-Proof. exact ml_no_panic_refuted. Qed.
-Print Assumptions C10mk_varassign_ml_no_panic_refuted.
+Theorem C10mk_varassign_ml_no_panic_partial :
+  forall (raw_text : str) (ls : list (Lines.line * res (option varassign))),
+  varassign_of_file raw_text = Ok ls ->
+  Forall (fun lr : Lines.line * res (option varassign) =>
+    ml_shape (line_multiline (fst lr)) (line_raw0 (fst lr)) (Lines.text (fst lr)) ->
+    (exists r, parse_varassign (Lines.text (fst lr)) = Ok r) -> snd lr <> Panic) ls.
+Proof. exact ml_no_panic_lines. Qed.
+Print Assumptions C10mk_varassign_ml_no_panic_partial.
 
-(* the witness: VAR.${PARAM:S,=,,}\ / = value *)
+(* the former witness of the panic: VAR.${PARAM:S,=,,}\ / = value is no assignment *)
 Example C10mk_varassign_ml_witness :
   varassign_of_file ml_witness_file =
-    Ok [(Lines.mk_line 1 ml_witness_text [ml_witness_raw0 ++ [10]; [61;32;118;97;108;117;101;10]], Panic)].
+    Ok [(Lines.mk_line 1 ml_witness_text [ml_witness_raw0 ++ [10]; [61;32;118;97;108;117;101;10]], Ok None)].
 Proof. exact ml_witness_lines. Qed.
-
-(* PARTIAL: without any "=" in the first raw line the line is rejected before the raw line is
-   looked at: no panic beyond those of parsing the logical text itself *)
-Theorem C10mk_varassign_ml_no_panic_partial : forall (raw0 text : str) (r : option varassign),
-  first_raw_has_equals raw0 = false ->
-  parse_varassign text = Ok r ->
-  parse_varassign_ml true raw0 text = Ok None.
-Proof. exact varassign_ml_rejected. Qed.
-Print Assumptions C10mk_varassign_ml_no_panic_partial.
